@@ -129,10 +129,69 @@ def install_patches():
             return ('', '')
 
     jf.Popen = _NoBash
+    _patch_task_state()
     # quiet logging
     logging.getLogger('cylc').setLevel(logging.CRITICAL + 1)
     _PATCHED = True
     return VCLOCK
+
+
+CURRENT_SIM: List[Optional['Sim']] = [None]
+
+_CALLSITE_FUNCS = (
+    '_process_message_failed', '_process_message_submit_failed',
+    '_retry_task', '_process_message_started', '_process_message_succeeded',
+    '_process_message_submitted', '_process_message_expired',
+    'process_message', 'prep_submit_task_jobs', 'submit_nonlive_task_jobs',
+    'load_db_task_pool_for_restart', '_load_db_task_proxy',
+    'force_trigger_tasks', '_force_trigger_tasks', 'set_prereqs_and_outputs',
+    '_set_outputs_itask', 'remove_tasks', 'kill_tasks', 'kill_task_jobs',
+    '_kill_task_job_callback', 'kill_prep_task', 'hold_active_task',
+    'release_held_active_task', 'release_runahead_tasks',
+    'release_queued_tasks', 'queue_task', 'unqueue_task',
+    '_reload_taskdefs', 'clock_expire_tasks', 'spawn_task',
+    '_poll_task_job_callback', '_submit_task_job_callback',
+    'process_queued_task_messages', 'reload_workflow',
+    '_prep_submit_task_job_error', '_platform_submit_failure',
+    'queue_or_trigger', 'copy_to_reload_successor',
+)
+
+
+def _patch_task_state():
+    """Record every task status / flag change with its call site."""
+    import cylc.flow.task_proxy as tp
+    orig = tp.TaskProxy.state_reset
+
+    def state_reset(self, status=None, is_held=None, is_queued=None,
+                    is_runahead=None, silent=False, forced=False):
+        st = self.state
+        before = (st.status, st.is_held, st.is_queued, st.is_runahead)
+        r = orig(self, status, is_held, is_queued, is_runahead, silent,
+                 forced)
+        sim = CURRENT_SIM[0]
+        if r and sim is not None and not self.transient:
+            after = (st.status, st.is_held, st.is_queued, st.is_runahead)
+            site = []
+            f = sys._getframe(1)
+            depth = 0
+            while f is not None and depth < 14:
+                nm = f.f_code.co_name
+                if nm in _CALLSITE_FUNCS:
+                    site.append(nm)
+                f = f.f_back
+                depth += 1
+            timers = {}
+            for k, t in (self.try_timers or {}).items():
+                timers[str(getattr(k, 'value', k))] = [
+                    t.num, len(t.delays or ())]
+            sim.ev('state', cycle=str(self.point), name=self.tdef.name,
+                   before=list(before), after=list(after), site=site,
+                   forced=bool(forced), submit_num=self.submit_num,
+                   manual=bool(self.is_manual_submit), timers=timers,
+                   flows=sorted(self.flow_nums))
+        return r
+
+    tp.TaskProxy.state_reset = state_reset
 
 
 # ---------------------------------------------------------------------------
@@ -567,6 +626,7 @@ class Sim:
         reset_globals()
         glbl_cfg(reload=True)
         VCluster.cls.current_sim = self
+        CURRENT_SIM[0] = self
         self.incarnation += 1
         o = {'run_mode': 'live', 'paused_start': False}
         o.update(self.run_opts)
@@ -755,6 +815,65 @@ class Sim:
 
         pool.add_to_pool = add_to_pool
         pool.remove = remove
+
+        orig_cbs = pool.can_be_spawned
+
+        def can_be_spawned(name, point):
+            r = orig_cbs(name, point)
+            if not r:
+                sim.ev('spawn-refused', cycle=str(point), name=name)
+            return r
+
+        pool.can_be_spawned = can_be_spawned
+
+        orig_rr = pool.release_runahead_tasks
+
+        def release_runahead_tasks():
+            before = {
+                t.identity for t in pool.get_tasks() if t.state.is_runahead}
+            if before:
+                snap = [(str(t.point), t.tdef.name, t.state.is_runahead,
+                         bool(t.is_manual_submit))
+                        for t in pool.get_tasks()]
+            r = orig_rr()
+            if before:
+                released = [
+                    t for t in pool.get_tasks()
+                    if t.identity in before and not t.state.is_runahead]
+                if released:
+                    sim.ev('rh-release',
+                           released=[[str(t.point), t.tdef.name,
+                                      bool(t.is_manual_submit)]
+                                     for t in released],
+                           pool=snap,
+                           limit=str(pool.runahead_limit_point),
+                           stop=str(pool.stop_point),
+                           max_future=str(pool.max_future_offset))
+            return r
+
+        pool.release_runahead_tasks = release_runahead_tasks
+
+        orig_rq = pool.release_queued_tasks
+
+        def release_queued_tasks():
+            counter, _pre = pool.count_active_tasks()
+            act = [(str(t.point), t.tdef.name, t.state.status,
+                    bool(t.waiting_on_job_prep), bool(t.is_manual_submit))
+                   for t in pool.get_tasks()
+                   if t.waiting_on_job_prep or t.state(
+                       'preparing', 'submitted', 'running')]
+            queued = [(str(t.point), t.tdef.name, t.state.is_held)
+                      for t in pool.get_tasks() if t.state.is_queued]
+            r = orig_rq()
+            newly = [t for t in r if (str(t.point), t.tdef.name) not in
+                     {(a[0], a[1]) for a in act}]
+            if newly or queued:
+                sim.ev('q-release',
+                       released=[[str(t.point), t.tdef.name] for t in newly],
+                       active=act, queued=queued)
+            return r
+
+        pool.release_queued_tasks = release_queued_tasks
 
         orig_shutdown = schd.shutdown
 
